@@ -112,6 +112,7 @@ structure St where
   thrTids : List Nat               -- threads of the thread payloads of this run
   execs : Nat → Option (Flav × Nat)  -- execute calls in flight: flavour and thread
   failedQuiet : List Nat           -- ghost: failures recorded while nothing had asked the run to stop
+  holder : Nat → Option Nat        -- a service instance that the frame of a payload refers to strongly
   pids : List Nat                  -- every payload / unit ever registered
 
 def upd {α} (f : Nat → α) (p : Nat) (v : α) : Nat → α := fun q => if q = p then v else f q
@@ -120,7 +121,7 @@ def St.init : St :=
   { phase := .idle, guard := none, pay := fun _ => .absent, fl := fun _ => .thr, starts := fun _ => 0,
     tid := fun _ => none, latch := fun _ => .opened, rtask := fun _ => .running, gather := .pending,
     stopReq := false, flushed := false, loopTid := none, trioTid := none, thrTids := [], execs := fun _ => none,
-    failedQuiet := [], pids := [] }
+    failedQuiet := [], holder := fun _ => none, pids := [] }
 
 def Phase.isEnded : Phase → Bool
   | .ended _ => true
@@ -167,10 +168,20 @@ inductive Ev
   | gatherRaise (f : Flav)              -- `gather` delivers runner f's failure to `_manage_runners`
   | gatherDone                          -- all runner tasks finished without error
   | discard (p : Nat)                   -- a submitted payload is dropped by a closing runner
+  -- references and garbage collection of service instances (C13: "keeps all of them alive")
+  | hold (p h : Nat)                    -- the running payload h keeps a strong reference to service p
+  | dropUnit (p : Nat)                  -- service p, not yet adopted, is garbage collected
 deriving Repr, DecidableEq
 
+/-- service p is strongly referenced by the frame of a payload that is running -/
+def St.held (s : St) (p : Nat) : Bool :=
+  match s.holder p with
+  | some h => decide (s.pay h = .running)
+  | none => false
+
 def Ev.internal : Ev → Bool
-  | .launch | .flush | .sweep _ | .record _ | .close _ | .rtaskEnd _ | .gatherRaise _ | .gatherDone | .discard _ => true
+  | .launch | .flush | .sweep _ | .record _ | .close _ | .rtaskEnd _ | .gatherRaise _ | .gatherDone | .discard _
+  | .hold _ _ | .dropUnit _ => true
   | _ => false
 
 /-- a coroutine payload that is still executing (or whose outcome the loop has not yet seen) -/
@@ -285,6 +296,13 @@ def step (s : St) : Ev → Option St
       else none
   | .discard p =>
       if s.pay p = .submitted ∧ s.closing then some { s with pay := upd s.pay p .discarded } else none
+  | .hold p h =>
+      -- only code that is running can take a reference
+      if s.pay h = .running then some { s with holder := upd s.holder p (some h) } else none
+  | .dropUnit p =>
+      -- a service unit holds its instance weakly until it is started: the instance can be collected
+      -- only while no running payload refers to it
+      if s.pay p = .unit ∧ s.held p = false then some { s with pay := upd s.pay p .discarded } else none
   | .sigint =>
       if s.phase = .up ∧ s.gather = .pending then
         some { s with gather := .interrupted,
@@ -352,10 +370,11 @@ def St.compact (ids : List Nat) (s : St) : St :=
   let r := Array.range (ids.foldl max 0 + 1)
   let pay := r.map s.pay; let fl := r.map s.fl; let starts := r.map s.starts; let tid := r.map s.tid
   let execs := r.map s.execs
+  let holder := r.map s.holder
   let la := s.latch .aio; let lt := s.latch .trio; let lh := s.latch .thr
   let ra := s.rtask .aio; let rt := s.rtask .trio; let rh := s.rtask .thr
   { s with pay := tabFn pay s.pay, fl := tabFn fl s.fl, starts := tabFn starts s.starts, tid := tabFn tid s.tid,
-           execs := tabFn execs s.execs,
+           execs := tabFn execs s.execs, holder := tabFn holder s.holder,
            latch := fun f => match f with | .aio => la | .trio => lt | .thr => lh,
            rtask := fun f => match f with | .aio => ra | .trio => rt | .thr => rh }
 
